@@ -96,7 +96,7 @@ var errnoChoices = []int{int(syscall.EPERM), int(syscall.ENOENT), int(syscall.EE
 
 func noiseSizes() []int {
 	if hx.Thorough() {
-		return []int{0, 0, 1, 2, 3, 10, 9, 11, 25, 60, 65, 64, 129, 257, 1025, 4097}
+		return []int{0, 0, 1, 2, 3, 10, 9, 11, 25, 60, 65, 64, 129, 257, 1025}
 	}
 	return []int{0, 0, 1, 2, 3, 10, 9, 11, 25, 60, 65, 64, 129, 257}
 }
@@ -563,10 +563,17 @@ func TestC08RealTransport(t *testing.T) {
 		res <- result{what, err}
 	}()
 	r := <-res
+	var he harnessErr
+	if errors.As(r.err, &he) {
+		t.Fatalf("VERIF-HARNESS harness problem (not a finding about the library): %s: %v", r.what, r.err) // the stage is undecided
+	}
 	if r.err != nil {
 		hC08.Fail(t, "TestC08RealTransport", C08Case{}, "%s: %v", r.what, r.err)
 	}
 }
+
+// harnessErr: the harness' own traffic (address changes through a raw socket) went wrong
+type harnessErr struct{ error }
 
 func realTransportRounds(t *testing.T, rounds int) (string, error) {
 	if err := syscall.Unshare(syscall.CLONE_NEWNET); err != nil {
@@ -591,11 +598,11 @@ func realTransportRounds(t *testing.T, rounds int) (string, error) {
 				continue
 			}
 			if err != nil || n < 20 || ne.Uint32(buf[16:]) != 0 {
-				return fmt.Errorf("the kernel did not acknowledge the address change: % x (%v)", buf[:max(n, 0)], err)
+				return harnessErr{fmt.Errorf("the kernel did not acknowledge the address change: % x (%v)", buf[:max(n, 0)], err)}
 			}
 			return nil
 		}
-		return syscall.EAGAIN
+		return harnessErr{syscall.EAGAIN}
 	}
 	cmds := []string{"GetStatus", "SetEnabled", "GetRules", "AddRule", "DeleteRule", "SetRateLimit", "SetBacklogLimit"}
 	for r := 0; r < rounds; r++ {
@@ -610,7 +617,7 @@ func realTransportRounds(t *testing.T, rounds int) (string, error) {
 		for e := 0; e < nEvents; e++ {
 			payload := []byte{syscall.AF_INET, 32, 0, 0, 1, 0, 0, 0}
 			for _, a := range []uint16{syscall.IFA_LOCAL, syscall.IFA_ADDRESS} {
-				payload = append(payload, 8, 0, byte(a), 0, 10, 99, byte(r), byte(e+1))
+				payload = append(payload, 8, 0, byte(a), 0, 10, byte(100+r>>8%150), byte(r), byte(e+1)) // (some stay configured: never the same address twice)
 			}
 			for _, typ := range []uint16{syscall.RTM_NEWADDR, syscall.RTM_DELADDR}[:1+e%2] {
 				flags := uint16(syscall.NLM_F_REQUEST | syscall.NLM_F_ACK)
@@ -619,7 +626,7 @@ func realTransportRounds(t *testing.T, rounds int) (string, error) {
 				}
 				if err := syscall.Sendto(req, simk.Msg(typ, flags, 0, 0, payload), 0, &syscall.SockaddrNetlink{Family: syscall.AF_NETLINK}); err != nil {
 					nc.Close()
-					return what, fmt.Errorf("address change request: %v", err)
+					return what, harnessErr{fmt.Errorf("address change request: %v", err)}
 				}
 				if err := ackOf(); err != nil {
 					nc.Close()
